@@ -747,3 +747,38 @@ func boolAtomCall(name, callee, callRe string) Atom {
 func boolAtomCanon(name, rx string) Atom {
 	return Atom{Name: name, VM: func(val bool) VM { return canonIs(name, rx, avBool(val)) }}
 }
+
+// include runs another property's rule function on the same program and
+// imports the obligations of the listed rules under new rule ids (shared
+// mechanisms, e.g. the validator's cache-key rules, serve several properties).
+func (p *P) include(from propFunc, rules map[string]string, docs map[string]string) {
+	sub := &P{c: p.c, r: NewReport(p.r.Prop, p.r.Tier)}
+	from(sub)
+	count := map[string]int{}
+	for _, o := range sub.r.Obs {
+		if to, ok := rules[o.Rule]; ok {
+			n := *o
+			n.Rule = to
+			n.Construct = "[" + o.Rule + "] " + o.Construct
+			p.r.Obs = append(p.r.Obs, &n)
+			count[to]++
+		}
+	}
+	p.r.Rows += 0
+	for from, to := range rules {
+		if _, ok := p.r.RuleDocs[to]; !ok {
+			p.r.RuleDocs[to] = docs[to] + " (shared with " + from + ": " + sub.r.RuleDocs[from] + ")"
+			p.r.Minima[to] = sub.r.Minima[from]
+		}
+	}
+}
+
+// paramIs binds the i-th parameter (counting the receiver) to av.
+func paramIs(name string, i int, av AV) VM {
+	return VM{Name: name, Match: func(fn *ssa.Function) map[ssa.Value]AV {
+		if i >= len(fn.Params) {
+			return nil
+		}
+		return map[ssa.Value]AV{fn.Params[i]: av}
+	}}
+}
